@@ -106,6 +106,7 @@ type Verdict struct {
 	Secs    float64        `json:"secs"`
 	Results []SolverResult `json:"results"`
 	Model   string         `json:"model,omitempty"`
+	Cand    map[string]string `json:"candidate_model,omitempty"`
 }
 
 // race runs the query on the installed solvers. z3-new first (it decides almost
@@ -158,4 +159,58 @@ func race(dir, base, text string, timeoutS int, wantModel bool) Verdict {
 		v.Answer, v.By = "unknown", ""
 	}
 	return v
+}
+
+// candidateModel: a model of the quantifier-free relaxation of a failed obligation
+// (every quantified fact dropped). It satisfies all ground facts of the VC but may
+// violate a dropped quantified one: a candidate counterexample, to be confirmed by
+// replay on the real code. Returns name -> value for Bool/Int constants.
+func candidateModel(dir, base, text string, timeoutS int) map[string]string {
+	var sb strings.Builder
+	for _, ln := range strings.Split(text, "\n") {
+		if strings.Contains(ln, "(forall ") || strings.Contains(ln, "(exists ") {
+			if strings.HasPrefix(ln, "(assert (not ") && strings.HasSuffix(strings.TrimSpace(ln), "))") {
+				// the negated goal itself is quantified: keep nothing of it (pure path-condition model)
+			}
+			continue
+		}
+		if strings.HasPrefix(ln, "(check-sat") {
+			continue
+		}
+		sb.WriteString(ln)
+		sb.WriteByte('\n')
+	}
+	sb.WriteString("(check-sat)\n(get-model)\n")
+	r := runSolver(solvers[0], dir, base+".cand", sb.String(), timeoutS)
+	if !strings.HasPrefix(strings.TrimSpace(r.Output), "sat") {
+		return nil
+	}
+	out := map[string]string{}
+	lines := strings.Split(r.Output, "\n")
+	for i := 0; i < len(lines); i++ {
+		ln := strings.TrimSpace(lines[i])
+		if !strings.HasPrefix(ln, "(define-fun ") {
+			continue
+		}
+		f := strings.Fields(ln)
+		if len(f) < 4 || f[2] != "()" {
+			continue
+		}
+		name, sort := f[1], f[3]
+		if sort != "Bool" && sort != "Int" {
+			continue
+		}
+		val := ""
+		if len(f) > 4 {
+			val = strings.Join(f[4:], " ")
+		} else if i+1 < len(lines) {
+			val = strings.TrimSpace(lines[i+1])
+		}
+		val = strings.TrimSuffix(strings.TrimSpace(val), ")")
+		if strings.HasPrefix(val, "(- ") {
+			val = "-" + strings.TrimSuffix(strings.TrimPrefix(val, "(- "), ")")
+		}
+		out[name] = val
+	}
+	return out
 }
